@@ -484,7 +484,12 @@ func filterGetdigit(in *Value, param *Value) (*Value, *Error) {
 	if i <= 0 || i > l {
 		return in, nil
 	}
-	return AsValue(in.String()[l-i] - 48), nil
+	digit := in.String()[l-i]
+	if digit < '0' || digit > '9' {
+		// not a digit at that position: like Django, return the input unchanged
+		return in, nil
+	}
+	return AsValue(digit - '0'), nil
 }
 
 const filterIRIChars = "/#%[]=:;$&()+,!?*@'~"
